@@ -51,7 +51,7 @@ class Scale(tuple):
     @classmethod
     def chromatic(cls, tuning=None):
         if tuning is None:
-            tuning = Tuning.from_name('et12')
+            tuning = Tuning.et(12)  # No tuning is registered by name.
         ppo = len(tuning)
         name = f'Chromatic {ppo} {tuning.name}'
         return cls(range(ppo), tuning, name=name)
